@@ -21,7 +21,8 @@ def ktv (t : Tokens) : String :=
 (min(requested, 4 MiB)); a frame is answered iff it fits -/
 def kmsz (t : Tokens) : String :=
   let lim := min (t.nat "second") (4 * 1024 * 1024)
-  s!"reply={if t.nat "len" ≤ lim then 1 else 0}"
+  -- every Tversion is answered with min(requested, 4 MiB), whatever was negotiated before (C12)
+  s!"ann1={min (t.nat "first") (4 * 1024 * 1024)} ann2={lim} reply={if t.nat "len" ≤ lim then 1 else 0}"
 
 /-- k13big: announced msize = min(requested, 4 MiB); the Rread carries min(count, announced-11)
 bytes (the backend fills the buffer), frame = 11 + that (C13 `rread_fits`) -/
